@@ -31,7 +31,7 @@ type EffectsDB struct {
 // externEffects: std-lib functions with an assumed contract and the components they write.
 var externEffects = map[string][]string{
 	"fmt.Sprintf": nil, "fmt.Errorf": nil, "fmt.Fprint": {"written", "nwrites", "failed"}, "fmt.Fprintf": {"written", "nwrites", "failed"},
-	"(*bytes.Buffer).String": nil, "(*bytes.Buffer).Bytes": nil, "(*bytes.Buffer).Write": {"written", "nwrites"},
+	"(*bytes.Buffer).String": nil, "(*bytes.Buffer).Bytes": nil, "(*bytes.Buffer).Write": {"written", "nwrites"}, "(*bytes.Buffer).WriteString": {"written", "nwrites"},
 	"strings.Contains": nil, "strings.HasSuffix": nil, "strings.HasPrefix": nil, "strings.ToLower": nil, "strings.LastIndex": nil,
 	"strconv.Quote": nil, "strconv.QuoteRune": nil, "strconv.CanBackquote": nil,
 	"sort.Strings": {"cells_String"}, "go/format.Source": nil,
